@@ -226,6 +226,7 @@ func init() {
 		ex.oblige(fr, st, "pre", "PutUvarint-fits", app("bvsle", n, b.L[2]), c.pos, "binary.PutUvarint panics if the buffer is too small: "+ex.srcLine(c.pos))
 		m := ex.byteMem(st)
 		d := sel(m, b.L[0])
+		ex.writeMem(st, []string{bytesKey()}, b.L[0], b.L[1], app("bvadd", b.L[1], n))
 		body := func(i string) string {
 			rel := app("bvsub", i, b.L[1])
 			inside := and(app("bvule", b.L[1], i), app("bvult", rel, n))
@@ -255,6 +256,7 @@ func init() {
 			srt := sArr(sInt, sArr(bv64, l.Sort))
 			m := ex.heapGet(st, k, srt)
 			d := sel(m, a.L[0])
+			ex.writeMem(st, []string{k}, a.L[0], a.L[1], app("bvadd", a.L[1], a.L[2]))
 			body := func(i string) string {
 				rel := app("bvsub", i, a.L[1])
 				inside := and(app("bvule", a.L[1], i), app("bvult", rel, a.L[2]))
@@ -283,7 +285,7 @@ func init() {
 	// ---- crypto/rand ----
 	s["crypto/rand.Read"] = func(ex *Exec, fr *Frame, st *State, c *callCtx) Val {
 		b := c.args[0]
-		ex.havocMemBase(st, types.Typ[types.Uint8], b.L[0])
+		ex.havocSlice(st, b)
 		return tup(intVal(b.L[2]), ex.maybeErr(st, "rand"))
 	}
 
@@ -320,6 +322,7 @@ func init() {
 		d := sel(m, dst.L[0])
 		fr0 := ex.fresh("ct", sArr(bv64, sBV(8)))
 		off := ex.def("aeado", bv64, ite(fits, dst.L[1], bvLit(0, 64)))
+		ex.writeMem(st, []string{bytesKey()}, dst.L[0], app("bvadd", dst.L[1], dst.L[2]), ite(fits, app("bvadd", dst.L[1], need), app("bvadd", dst.L[1], dst.L[2])))
 		body := func(i string) string {
 			rel := app("bvsub", i, off)
 			return ite(and(app("bvule", off, i), app("bvult", rel, need), app("bvuge", rel, dst.L[2])), sel(fr0, i), ite(fits, sel(d, i), sel(fr0, i)))
@@ -334,7 +337,7 @@ func init() {
 		okv := ex.fresh("aeadok", sBool)
 		ex.assume("true", implies(okv, app("bvsge", ct.L[2], bvLit(16, 64))))
 		// on success plaintext (len-16) is written at dst; on failure dst memory may be clobbered
-		ex.havocMemBase(st, types.Typ[types.Uint8], dst.L[0])
+		ex.havocSlice(st, Val{T: dst.T, L: []string{dst.L[0], app("bvadd", dst.L[1], dst.L[2]), ct.L[2], ct.L[2]}})
 		e := ex.freshErr(st, "aead")
 		pl := app("bvsub", ct.L[2], bvLit(16, 64))
 		out := Val{T: c.results().At(0).Type(), L: []string{ite(okv, dst.L[0], "0"), ite(okv, dst.L[1], bvLit(0, 64)),
